@@ -609,6 +609,16 @@ class Program:
             for t in st.targets:
                 if isinstance(t, ast.Name):
                     m.assigns.setdefault(t.id, []).append(st.value)
+                elif isinstance(t, (ast.Tuple, ast.List)) and all(
+                        isinstance(e, ast.Name) for e in t.elts):
+                    # a, b = <expr>: a is <expr>[0], b is <expr>[1]
+                    for i, e in enumerate(t.elts):
+                        sub = ast.Subscript(value=st.value,
+                                            slice=ast.Constant(value=i),
+                                            ctx=ast.Load())
+                        ast.copy_location(sub, st.value)
+                        ast.fix_missing_locations(sub)
+                        m.assigns.setdefault(e.id, []).append(sub)
         elif isinstance(st, ast.Import):
             for a in st.names:
                 local = a.asname or a.name.split('.')[0]
